@@ -1290,4 +1290,13 @@ except ImportError:
         assert isinstance(bytes, b)""")], tests="killed", note="isinstance with its operands exchanged: TypeError on every input"),
     B("m-default-identity-not-empty", ["C03"], [(SP, '    def __init__(self, password, idSymmetric=b"",', '    def __init__(self, password, idSymmetric=b"x",')], tests="killed",
       note="an omitted identity no longer means the empty string"),
+    B("m-ed-ne-recurses", ["C13"], [(ED, "        return not self == other\n", "        return not self != other\n")],
+      note="survives the tests (no test compares Ed25519 elements with !=)"),
+    B("m-start-always-refuses", ["C01", "C03", "C04"], [(SP, "        if self._started:\n", "        if True:\n")], tests="killed",
+      note="start() raises OnlyCallStartOnce on a fresh instance: reported as LIFECYCLE by the properties that promise a message/key; no verdict elsewhere"),
+    B("m-ctor-isinstance-swapped", ["C01", "C03", "C04"], [(SP, "        assert isinstance(password, bytes)\n", "        assert isinstance(bytes, password)\n")], tests="killed"),
+    # ---- identifier-swap mutants (tools/mutation_sweep.py --ops names) the tests kill and no check reported
+    B("m-int-order-returns-p", ["C13"], [(GR, "    def order(self):\n        return self.q\n", "    def order(self):\n        return self.p\n")], tests="killed"),
+    B("m-int-scalar-decoder-wants-element-width", ["C15"], [(GR, "        assert len(b) == self.scalar_size_bytes", "        assert len(b) == self.element_size_bytes")], tests="killed",
+      note="every group whose scalars are shorter than its elements can no longer restore a scalar"),
 ]
